@@ -1,7 +1,7 @@
 (* C09 - the code as it stood at the pinned commit does NOT keep fields apart.
    Witnesses about the superseded definitions (flags fx = false, reset = false);
    each was replayed against the implementation before the repair
-   (handoff/C09-fix-1.diff, C09-fix-2.diff). *)
+   (handoff/C09-fix-1.diff = reader, C09-fix-2.diff = dimension rule). *)
 From CfdmV Require Import Common.Base C09.Model C09.Lemmas.
 Open Scope Z_scope.
 
